@@ -145,6 +145,9 @@ def gen_det_wf(rng: random.Random, d: int, ch, *, dmm=False, weights_max=1.0, we
             v = 0.0
         else:
             v = round(rng.uniform(lo * 0.98, 0.0), 4)
+        if rng.random() < 0.07 and d >= 2 and v < 0:
+            # mostly negative, ends positive: a DMM must refuse it
+            return {"w": "ramp", "d": d, "a": v, "b": round(-0.3 * v + 0.5, 4)}
         if rng.random() < 0.3 and d >= 2:
             return {"w": "ramp", "d": d, "a": v, "b": round(v * rng.random(), 4)}
         return {"w": "const", "d": d, "v": v}
